@@ -42,13 +42,17 @@ Definition name_case_reaches (url_host : N) (hostname sni : option N) (skip : bo
   reaches (mkT Trusted (select_name url_host hostname sni =? 1) skip CNone false).
 
 (* ---- the hot-swappable identity ---- *)
-(* identity = (which server certificate, client CA configured) *)
-Definition ident := (N * bool)%type.
+(* identity = (which server certificate, which client CA the file holds when the identity is (re)loaded:
+   0 none configured, 1 the first client CA, 2 another client CA written to the same file) *)
+Definition ident := (N * N)%type.
+(* a client presenting a certificate of kind k (0 none, 1 under the first CA, 2 under the second) is admitted *)
+Definition admitted (ca kind : N) : bool := (ca =? 0) || (ca =? kind).
 
 Inductive iev :=
 | IHandshake                 (* a new client connects (skip-verify, good client cert): which certificate does it see *)
 | IReload (good : bool) (i : ident)  (* the files are replaced and the identity reloaded; bad files: the reload fails *)
 | IUse (k : N)               (* an established connection is used again *)
+| IFresh (kind : N)          (* a new client presenting a certificate of the given kind; the connection is not kept *)
 | IReturning (withcert : bool). (* a client that connected before comes back with its session cache (with / without the
                                 good client certificate): it is authenticated as, and sees what, a new client would *)
 
@@ -56,11 +60,15 @@ Record istate := mkI { i_cur : ident; i_conns : list N }.  (* certificate seen b
 
 Definition istep (s : istate) (e : iev) : istate * list N :=
   match e with
-  | IHandshake => (mkI (i_cur s) (i_conns s ++ [fst (i_cur s)]), [1; fst (i_cur s); if snd (i_cur s) then 1 else 0])
+  | IHandshake =>
+      if admitted (snd (i_cur s)) 1
+      then (mkI (i_cur s) (i_conns s ++ [fst (i_cur s)]), [1; fst (i_cur s); if snd (i_cur s) =? 0 then 0 else 1])
+      else (s, [0])
+  | IFresh kind => (s, if admitted (snd (i_cur s)) kind then [1; fst (i_cur s)] else [0])
   | IReload good i => (if good then mkI i (i_conns s) else s, [if good then 1 else 0])
   | IUse k => (s, match nth_error (i_conns s) (N.to_nat k) with Some c => [1; c] | None => [0] end)
   | IReturning withcert =>
-      (s, if negb (snd (i_cur s)) || withcert then [1; fst (i_cur s)] else [0])
+      (s, if admitted (snd (i_cur s)) (if withcert then 1 else 0) then [1; fst (i_cur s)] else [0])
   end.
 
 Fixpoint irun (s : istate) (es : list iev) : list N :=
@@ -78,9 +86,10 @@ Definition b2n (b : bool) : N := if b then 1 else 0.
 Fixpoint parse_iev (c : list N) : list iev :=
   match c with
   | 0 :: r => IHandshake :: parse_iev r
-  | 1 :: good :: cert :: ca :: r => IReload (negb (good =? 0)) (cert, negb (ca =? 0)) :: parse_iev r
+  | 1 :: good :: cert :: ca :: r => IReload (negb (good =? 0)) (cert, ca) :: parse_iev r
   | 2 :: k :: r => IUse k :: parse_iev r
   | 3 :: k :: r => IReturning (k =? 0) :: parse_iev r
+  | 4 :: k :: r => IFresh k :: parse_iev r
   | _ => []
   end.
 
@@ -89,7 +98,7 @@ Definition run_tls (c : list N) : list N :=
   | [1; sc; nm; sk; cc; ca] =>
       let t := mkT (issuer_of sc) (nm =? 0) (negb (sk =? 0)) (ccert_of cc) (negb (ca =? 0)) in
       [b2n (reaches t); b2n (server_asks t)]
-  | 2 :: cert :: ca :: r => irun (mkI (cert, negb (ca =? 0)) []) (parse_iev r)
+  | 2 :: cert :: ca :: r => irun (mkI (cert, ca) []) (parse_iev r)
   | [5; cert; n] =>
       (* the identity replaced n times through the server's own reload path, the client CA staying configured:
          per round: reached with the right client certificate, certificate seen, reached without one, asked *)
